@@ -18,6 +18,12 @@ type c18Case struct {
 	// Race: the frames are the operation stacks of a race report whose creation stacks start in
 	// a file under no root (the go-test generated main), instead of a goroutine dump
 	Race bool `json:",omitempty"`
+	// EnvSlash: the local GOPATHs come from $GOPATH through DefaultOpts(), entry i written with
+	// a trailing slash when EnvSlash[i] (nil: Opts filled in directly)
+	EnvSlash []bool `json:",omitempty"`
+	// Again: the same Opts value is used for a second scan of the same dump, which must find
+	// the Opts untouched and give the same snapshot
+	Again bool `json:",omitempty"`
 }
 
 const testMainPath = "/tmp/go-build123/b001/_test/_testmain.go"
@@ -68,6 +74,44 @@ func c18Resolve(c *c18Case, base string) (*stack.Snapshot, []fileTruth, []*stack
 	}
 	d := dumpFor(refs, order)
 	opts := &stack.Opts{GuessPaths: true, LocalGOROOT: c.L.localGoroot(base), LocalGOPATHs: c.L.localGopaths(base)}
+	if gps := c.L.localGopaths(base); len(c.EnvSlash) != 0 && len(gps) != 0 {
+		var spelled []string
+		for i, g := range gps {
+			if c.EnvSlash[i%len(c.EnvSlash)] {
+				g += "/"
+			}
+			spelled = append(spelled, g)
+		}
+		old, had := os.LookupEnv("GOPATH")
+		os.Setenv("GOPATH", strings.Join(spelled, string(os.PathListSeparator)))
+		opts.LocalGOPATHs = stack.DefaultOpts().LocalGOPATHs
+		if had {
+			os.Setenv("GOPATH", old)
+		} else {
+			os.Unsetenv("GOPATH")
+		}
+	}
+	snap, ts, calls, err := c18Scan(c, &d, opts, truths, order)
+	if err != nil || !c.Again {
+		return snap, ts, calls, err
+	}
+	_, _, calls2, err := c18Scan(c, &d, opts, truths, order)
+	if err != nil {
+		return nil, nil, nil, fmt.Errorf("second scan with the same Opts: %v", err)
+	}
+	// the first scan is held against the truth by the caller; the second must resolve alike
+	for i := range calls {
+		a, b := calls[i], calls2[i]
+		if a.LocalSrcPath != b.LocalSrcPath || a.RelSrcPath != b.RelSrcPath || a.ImportPath != b.ImportPath || a.Location != b.Location {
+			return nil, nil, nil, fmt.Errorf("a second scan of the same dump with the same Opts resolves frame %s differently:\n first  local=%q rel=%q import=%q location=%s\n second local=%q rel=%q import=%q location=%s",
+				a.RemoteSrcPath, a.LocalSrcPath, a.RelSrcPath, a.ImportPath, a.Location, b.LocalSrcPath, b.RelSrcPath, b.ImportPath, b.Location)
+		}
+	}
+	return snap, ts, calls, nil
+}
+
+func c18Scan(c *c18Case, dp *DumpM, opts *stack.Opts, truths []fileTruth, order []int) (*stack.Snapshot, []fileTruth, []*stack.Call, error) {
+	d := *dp
 	var snap *stack.Snapshot
 	var err error
 	if c.Race && len(d.Gs) >= 2 {
@@ -88,6 +132,9 @@ func c18Resolve(c *c18Case, base string) (*stack.Snapshot, []fileTruth, []*stack
 	}
 	if err != nil {
 		return nil, nil, nil, err
+	}
+	if snap == nil {
+		return nil, nil, nil, fmt.Errorf("HARNESS: no snapshot")
 	}
 	var ts []fileTruth
 	var calls []*stack.Call
@@ -228,7 +275,11 @@ var c18 = Check[c18Case]{
 			idx[i] = i
 		}
 		perm := rapid.Permutation(idx).Draw(t, "refs")
-		return c18Case{L: l, Order: perm[:k], Race: oneIn(t, 4, "raceReport")}
+		c := c18Case{L: l, Order: perm[:k], Race: oneIn(t, 4, "raceReport"), Again: oneIn(t, 3, "again")}
+		if len(l.Gopaths) != 0 && oneIn(t, 3, "viaEnv") {
+			c.EnvSlash = rapid.SliceOfN(rapid.Bool(), len(l.Gopaths), len(l.Gopaths)).Draw(t, "envSlash")
+		}
+		return c
 	},
 	Oracle: c18Oracle,
 	Obs: func(c c18Case) Obs {
